@@ -84,3 +84,11 @@ Proof.
   split; [intros; apply gen_getPhaseBlocks; assumption|]. split; [intros; apply gen_BlockProvisions; assumption|intros; apply gen_IsEndPhase].
 Qed.
 Print Assumptions C13_phase_kernels_generated.
+
+(* the whole per-block transition of the mint module: x/mint/abci.go BeginBlocker is generated as a function on the state it reaches
+   through its keeper (minter, params, token supply, block height; MintCoins adds to the supply) and computes, wherever the model's
+   begin_block does not panic, the model's minter and minted amount: the theorems above about begin_block are theorems about this code *)
+Theorem C13_begin_block_generated : forall P m supply h m' minted, begin_block P m supply h = BBok m' minted ->
+  K_mint_BeginBlocker (mint_state P m supply 0 h) = mint_state P m' (supply + minted) minted h.
+Proof. exact gen_BeginBlocker. Qed.
+Print Assumptions C13_begin_block_generated.
